@@ -25,4 +25,5 @@ func C10(r *core.Run) {
 	})
 	rules.PoolOwnership(r, []string{"internal/codec", "lib/j5reflect", "lib/j5schema"})
 	rules.PoolAlias(r, []string{"internal/codec", "lib/j5reflect", "lib/j5schema"})
+	rules.LockPairing(r, []string{"internal/codec", "lib/j5reflect", "lib/j5schema"})
 }
